@@ -22,6 +22,9 @@ pub enum RenewMode {
     Same,
     /// renew() yields an identity that loses the conflict (rejoin must fail)
     Losing,
+    /// renew() yields a different identity that neither wins nor loses (only the top bit of the generation
+    /// differs, which the conflict order ignores under this policy): rejoin must fail as well
+    Tie,
 }
 
 #[derive(Clone, Copy, Debug, PartialEq, Eq, serde::Serialize, serde::Deserialize)]
@@ -62,6 +65,9 @@ pub fn policy() -> Policy {
     POLICY.with(|c| c.get())
 }
 
+/// ignored by the conflict order under RenewMode::Tie
+pub const TIE_BIT: u32 = 0x8000_0000;
+
 impl SimId {
     pub const fn new(addr: u16, gen: u32) -> Self {
         SimId { addr, gen }
@@ -88,6 +94,7 @@ impl SimId {
             RenewMode::Next => self.gen.checked_add(1).map(|g| SimId::new(self.addr, g)),
             RenewMode::Same => Some(*self),
             RenewMode::Losing => Some(SimId::new(self.addr, self.gen.saturating_sub(1))),
+            RenewMode::Tie => Some(SimId::new(self.addr, self.gen ^ TIE_BIT)),
         }
     }
 }
@@ -106,7 +113,12 @@ impl Identity for SimId {
         if self.addr != adversary.addr || self == adversary {
             CONFLICT_CONTRACT_BREACHES.with(|c| c.set(c.get() + 1));
         }
-        self.gen > adversary.gen
+        if policy().renew == RenewMode::Tie {
+            // a partial order: identities that differ in the top bit only are incomparable
+            (self.gen & !TIE_BIT) > (adversary.gen & !TIE_BIT)
+        } else {
+            self.gen > adversary.gen
+        }
     }
 }
 
